@@ -24,10 +24,12 @@ func init() {
 		gRoute(c)
 		c05Extras(c)
 		gMatchAck(c)
+		nodeLoop(c)
 	}})
 	register(&PropertyRule{ID: "C08", Explain: "structural necessary conditions of C08 (apply stream): see DESIGN.md §5 C08", Run: func(c *Check) {
 		gApply(c)
 		sliceRules(c)
+		nodeLoop(c)
 	}})
 	register(&PropertyRule{ID: "C19", Explain: "structural conditions of C19 (determinism): all nondeterminism sources, map iterations and globals in code reachable from the API; see DESIGN.md §5 C19", Run: func(c *Check) {
 		c19Determinism(c)
